@@ -112,7 +112,12 @@ def run_path(con: Contract, case, prefix, worklist, report: FunctionReport, plan
     label, case_types = case if case is not None else (None, None)
     node, modname, h = source.find_function(con.qualname)
     report.source_hash = h
+    _check_decorators(con, node)
     ctx = Ctx(prefix, worklist)
+    from . import values as _values
+
+    del _values.LIVE_FUTURES[:]
+    del _values.LIVE_EXT[:]
     I = Interp(ctx, REGISTRY)
     I.current_target = con.qualname
     qn = con.qualname
@@ -130,6 +135,7 @@ def run_path(con: Contract, case, prefix, worklist, report: FunctionReport, plan
             report.pre_satisfiable = ctx.is_feasible()
         ctx.entry_syms = clone_graph(bindings)
         old_view = snapshot(list(bindings.values()))
+        I.entry_old_view = old_view
         from . import asyncrule, looprule
 
         asyncrule.install(I, con, self_obj, bindings)
@@ -177,6 +183,19 @@ def run_path(con: Contract, case, prefix, worklist, report: FunctionReport, plan
             report.samples.append({"decisions": list(ctx.decisions), "pc_size": len(ctx.pc),
                                    "obligations": [n for n, _, _ in ctx.obligations][:8]})
     report.paths += 1
+
+
+# decorators whose effect on the function's meaning the engine models (binding kind only)
+KNOWN_DECORATORS = {"classmethod", "staticmethod", "property", "abc.abstractmethod", "abstractmethod",
+                    "contextlib.contextmanager", "contextmanager", "contextlib.asynccontextmanager"}
+
+
+def _check_decorators(con, node):
+    for d in getattr(node, "decorator_list", []):
+        s = ast.unparse(d)
+        if s in KNOWN_DECORATORS or s in getattr(con, "accepted_decorators", ()):
+            continue
+        raise Unsupported(f"decorator @{s} on {con.qualname} is not modelled: the verified text would not be the code that runs")
 
 
 def known_hyps(I, con, name, bindings, old_view):
@@ -235,6 +254,8 @@ def check_exit(I, con, bindings, old_view, result, raised, exit_kind, self_obj, 
                 a, b_ = oldf.get(fld), self_obj.fields.get(fld)
                 same = getattr(a, "oid", None) is not None and getattr(a, "oid", None) == getattr(b_, "oid", None)
                 check(f"frame.{fld}.binding", bool(same))
+                if same and type(a).__name__ in ("SMap", "SColl"):
+                    check(f"frame.{fld}.keys", I.eq(a, b_))
                 continue
             if fld not in oldf or fld not in self_obj.fields:
                 check(f"frame.{fld}", False)
@@ -277,3 +298,63 @@ def cases_of(con: Contract):
     if con.cases_:
         return list(con.cases_)
     return [None]
+
+
+def explore_one(con: Contract, case, prefix, first):
+    """Run exactly one path (identified by its decision prefix).  Returns (report dict, new prefixes)."""
+    label = case[0] if case else None
+    report = FunctionReport(con.qualname, label)
+    t0 = time.time()
+    q0, s0 = STATS.queries, STATS.solver_s
+    worklist = []
+    try:
+        run_path(con, case, prefix, worklist, report, plant_canary=first)
+    except Unsupported as u:
+        report.outside_reach = f"{u}"
+    except Exception as e:  # engine error: never a verdict
+        report.error = "".join(traceback.format_exception(type(e), e, e.__traceback__))[-3000:]
+    report.wall_s = time.time() - t0
+    report.queries = STATS.queries - q0
+    report.solver_s = STATS.solver_s - s0
+    d = report.to_dict()
+    d["infeasible"] = report.infeasible
+    return d, worklist
+
+
+def merge_reports(acc, d):
+    """Merge the report dict of one path into the accumulated report dict of the function."""
+    if acc is None:
+        return d
+    order = {"proved": 0, "undecided": 1, "refuted": 2}
+    for k, o in d["obligations"].items():
+        a = acc["obligations"].get(k)
+        if a is None:
+            acc["obligations"][k] = o
+            continue
+        a["checked_on_paths"] += o["checked_on_paths"]
+        a["backends"] = sorted(set(a["backends"]) | set(o["backends"]))
+        a["solver_s"] = round(a["solver_s"] + o["solver_s"], 4)
+        if order[o["verdict"]] > order[a["verdict"]]:
+            a["verdict"] = o["verdict"]
+    have = {r["obligation"] for r in acc["refutations"]}
+    for r in d["refutations"]:
+        if r["obligation"] not in have or len(acc["refutations"]) < 12:
+            acc["refutations"].append(r)
+            have.add(r["obligation"])
+    for k, v in d["exits"].items():
+        acc["exits"][k] = acc["exits"].get(k, 0) + v
+    acc["paths"] += d["paths"]
+    acc["infeasible"] = acc.get("infeasible", 0) + d.get("infeasible", 0)
+    acc["assumptions"] = sorted(set(acc["assumptions"]) | set(d["assumptions"]))
+    acc["dropped"] = sorted(set(acc["dropped"]) | set(d["dropped"]))
+    acc["outside_reach"] = acc["outside_reach"] or d["outside_reach"]
+    acc["error"] = acc["error"] or d["error"]
+    if acc["pre_satisfiable"] is None:
+        acc["pre_satisfiable"] = d["pre_satisfiable"]
+    acc["wall_s"] = round(acc["wall_s"] + d["wall_s"], 3)
+    acc["solver_s"] = round(acc["solver_s"] + d["solver_s"], 3)
+    acc["queries"] += d["queries"]
+    if len(acc["samples"]) < 3:
+        acc["samples"].extend(d["samples"][: 3 - len(acc["samples"])])
+    acc["source_hash"] = acc["source_hash"] or d["source_hash"]
+    return acc
